@@ -132,7 +132,35 @@ type hsub struct {
 	msgs       []interface{}
 	cleanups   int
 	log        *[]int
+	shared     *conn  // the connection (Subscriber object) the subscription was made by
+	marker     string // the response key that says a message is for this subscription
 }
+
+// conn is one client connection that holds several subscriptions: ONE Subscriber object behind all
+// of them (same pattern for all, as Match can not tell them apart). A message is routed to the
+// subscription it is for by the marker key that subscription's selection carries.
+type conn struct {
+	subs     []*hsub
+	cleanups int
+	stray    int
+}
+
+func (c *conn) Match(eventID string) bool { return c.subs[0].Match(eventID) }
+func (c *conn) Send(v interface{}) error {
+	if len(c.subs) == 1 {
+		return c.subs[0].Send(v)
+	}
+	if m, ok := v.(map[string]interface{}); ok {
+		for _, h := range c.subs {
+			if _, has := m[h.marker]; has && h.marker != "" {
+				return h.Send(v)
+			}
+		}
+	}
+	c.stray++
+	return nil
+}
+func (c *conn) Unsubscribe() { c.cleanups++ }
 
 var errSend = errors.New("injected send failure")
 
@@ -192,6 +220,9 @@ type Op struct {
 	// ReuseOf > 0: this subscription request is not parsed afresh, the parsed request of the
 	// ReuseOf-th subscribe step (1-based) is resolved again (same selection, same id)
 	ReuseOf int `json:"reuse_of,omitempty"`
+	// ShareWith > 0: the subscription is made by the connection (Subscriber object) that made the
+	// ShareWith-th subscribe step (1-based); pattern and field are that step's
+	ShareWith int `json:"share_with,omitempty"`
 	// Cond: the subscription field carries a condition that lets it through -
 	// include-default (@include(if: $v), $v: Boolean = true, no value given), skip-default
 	// (@skip(if: $w), $w: Boolean = false), include-given ($v given as true), include-literal
@@ -330,6 +361,21 @@ func genCaseC19(rt *rapid.T) *c19Case {
 					}
 				}
 			}
+			if op.ReuseOf == 0 && op.Field != "batch" && subs > 1 && rapid.IntRange(0, 4).Draw(rt, lab+"share") == 0 {
+				k, want := 0, rapid.IntRange(1, subs-1).Draw(rt, lab+"shareWith")
+				for _, prev := range c.Ops {
+					if prev.Kind == "subscribe" {
+						// (identifiers of abstract and plain subscriptions are kept apart)
+						if k++; k == want && prev.Field != "batch" && (prev.Field == "things" || prev.Field == "items") == (op.Field == "things" || op.Field == "items") {
+							op.ShareWith = want
+							if prev.ShareWith > 0 {
+								op.ShareWith = prev.ShareWith
+							}
+							op.Pattern, op.Wildcard = prev.Pattern, prev.Wildcard
+						}
+					}
+				}
+			}
 			c.Ops = append(c.Ops, op)
 		case "publish":
 			if !catchAll && rapid.IntRange(0, 4).Draw(rt, lab+"batchEvent") == 0 {
@@ -407,6 +453,9 @@ func runHistory(cc *c19Case) (ds []hx.Discrepancy, traits map[string]bool, hist 
 		if id, _ := args["id"].(string); id != h.pattern {
 			return nil, fmt.Errorf("subscription field received id %q, the request said %q", id, h.pattern), true
 		}
+		if h.shared != nil {
+			return ggql.NewSubscription(h.shared, field, args), nil, true
+		}
 		return ggql.NewSubscription(h, field, args), nil, true
 	}
 	failed := false
@@ -427,7 +476,30 @@ func runHistory(cc *c19Case) (ds []hx.Discrepancy, traits map[string]bool, hist 
 		for _, h := range live {
 			isLive[h] = true
 		}
+		conns := map[*conn]bool{}
 		for _, h := range all {
+			if h.shared != nil {
+				conns[h.shared] = true
+			}
+		}
+		for cn := range conns {
+			gone := 0
+			for _, h := range cn.subs {
+				if !isLive[h] {
+					gone++
+				}
+			}
+			if cn.cleanups != gone {
+				fail("a connection with %d subscriptions, %d of them removed, had its clean-up called %d times", len(cn.subs), gone, cn.cleanups)
+			}
+			if cn.stray > 0 {
+				fail("a connection received %d messages that are for none of its subscriptions", cn.stray)
+			}
+		}
+		for _, h := range all {
+			if h.shared != nil {
+				continue
+			}
 			if h.cleanups > 1 {
 				fail("%v cleaned up %d times", h, h.cleanups)
 			}
@@ -446,6 +518,30 @@ func runHistory(cc *c19Case) (ds []hx.Discrepancy, traits map[string]bool, hist 
 		switch op.Kind {
 		case "subscribe":
 			h := &hsub{num: len(all), pattern: op.Pattern, wildcard: op.Wildcard, log: &order, failAt: map[int]bool{}, sels: op.Sels, frags: op.Frags}
+			if op.Field != "batch" {
+				// (a key that says which subscription a message is for)
+				h.marker = fmt.Sprintf("mk%d", h.num)
+				h.sels = append(append([]*hx.Sel{}, op.Sels...), &hx.Sel{Kind: "field", Alias: h.marker, Name: "__typename"})
+			}
+			if op.ReuseOf > 0 && op.ReuseOf <= len(all) {
+				h.sels, h.marker = all[op.ReuseOf-1].sels, all[op.ReuseOf-1].marker // (the parsed request that is resolved again carries that step's marker)
+			}
+			if op.ShareWith > 0 && op.ShareWith <= len(all) && op.ReuseOf == 0 {
+				unique := h.marker != ""
+				if first := all[op.ShareWith-1]; first.shared != nil {
+					for _, o := range first.shared.subs {
+						unique = unique && o.marker != h.marker && o.marker != ""
+					}
+				}
+				if first := all[op.ShareWith-1]; unique && first.pattern == h.pattern && first.wildcard == h.wildcard && first.shared != nil {
+					h.shared = first.shared
+					h.shared.subs = append(h.shared.subs, h)
+					traits["one-subscriber-object-behind-two-subscriptions"] = true
+				}
+			}
+			if h.shared == nil {
+				h.shared = &conn{subs: []*hsub{h}}
+			}
 			for _, k := range op.FailAt {
 				h.failAt[k] = true
 			}
